@@ -266,6 +266,7 @@ Fixpoint find (fuel : nat) (root : tree) (xs : list pstr) (par : pref) (parv : t
           else
             match parv with
             | Lst _ (_ :: _) => self_find root (br s_star :: xs) par parv fstr
+            | Lst _ [] => Ok (root, false, mkF par parv None None fstr (Some xs))   (* no record to select from *)
             | Dict _ kvs =>
               match lookup n kvs with
               | None => Ok (root, false, mkF par parv None None fstr (Some xs))
